@@ -24,8 +24,9 @@ EXTENDS Integers, Sequences, FiniteSets, TLC, Json
 CONSTANTS Kinds,        \* block kinds: "plain", "price" (reward price update), "version" (network update applied), "vals" (validator set update)
           MaxBlocks,
           MaxFaults,    \* restarts + crashes per behaviour
-          Faults,       \* subset of {"restart", "crash"}
-          AtomicApp     \* TRUE: app records are written in one atomic batch (model of a repaired Commit)
+          Faults,       \* subset of {"restart", "crash", "sync"}
+          AtomicApp,    \* TRUE: app records are written in one atomic batch (model of a repaired Commit)
+          SnapItems     \* the application records a state-sync snapshot carries besides the state tree (coreV2/appdb/snapshot.go)
 
 VARIABLES disk, mem, ideal, tm, phase, pend, faults, scn
 dvars == <<disk, mem, ideal, tm, phase, pend, faults, scn>>
@@ -82,7 +83,7 @@ IdealObs == [height |-> ideal.height, hash |-> ideal.st, st |-> ideal.st, emissi
 
 \* ---------------------------------------------------------------- behaviours
 Init ==
-   /\ disk = [tree |-> (0 :> <<>>), hash |-> <<>>, height |-> 0, emission |-> 0, price |-> 0, versions |-> 0, vals |-> 0, times |-> <<>>]
+   /\ disk = [tree |-> (0 :> <<>>), hash |-> <<>>, height |-> 0, emission |-> 0, price |-> 0, versions |-> 0, vals |-> 0, times |-> <<>>, snap |-> 0]
    /\ mem = [r |-> Rec0, dirty |-> [Dirty0 EXCEPT !.price = TRUE], alive |-> TRUE]     \* InitChain calls SetPrice: the price flag starts dirty
    /\ ideal = Rec0
    /\ tm = [height |-> 0, kind |-> "plain"]     \* the block Tendermint has stored last
@@ -110,8 +111,9 @@ WriteOne ==
    /\ LET batch == IF AtomicApp /\ Head(pend) \in AppWrites THEN pend ELSE <<Head(pend)>>
           RECURSIVE ApplyAll(_, _)
           ApplyAll(d, ws) == IF ws = <<>> THEN d ELSE ApplyAll(ApplyWrite(d, mem, Head(ws)), Tail(ws))
-      IN /\ disk' = ApplyAll(disk, batch)
-         /\ pend' = SubSeq(pend, Len(batch) + 1, Len(pend))
+      IN /\ pend' = SubSeq(pend, Len(batch) + 1, Len(pend))
+         \* when the last write of the commit is done the node takes the snapshot of this height (background goroutine of Commit)
+         /\ disk' = IF pend' = <<>> THEN [ApplyAll(disk, batch) EXCEPT !.snap = mem.r.height] ELSE ApplyAll(disk, batch)
    /\ IF pend' = <<>> THEN /\ phase' = "idle" /\ mem' = [mem EXCEPT !.dirty = DirtyAfterCommit(@)]
                       ELSE /\ phase' = "committing" /\ mem' = mem
    /\ UNCHANGED <<ideal, tm, faults, scn>>
@@ -138,7 +140,7 @@ Recover ==
          THEN LET m1 == [m0 EXCEPT !.r = Exec(m0.r, tm.kind, tm.height), !.dirty = DirtyAfter(m0.dirty, tm.kind)]
                   RECURSIVE ApplyAll(_, _)
                   ApplyAll(d, ws) == IF ws = <<>> THEN d ELSE ApplyAll(ApplyWrite(d, m1, Head(ws)), Tail(ws))
-              IN /\ disk' = ApplyAll(disk, Writes(m1))
+              IN /\ disk' = [ApplyAll(disk, Writes(m1)) EXCEPT !.snap = tm.height]
                  /\ mem' = [m1 EXCEPT !.dirty = DirtyAfterCommit(@)]
                  /\ phase' = "idle"
          ELSE /\ mem' = m0 /\ disk' = disk /\ phase' = "stuck"
@@ -155,7 +157,27 @@ Restart ==
    /\ scn' = Append(scn, [op |-> "restart"])
    /\ UNCHANGED <<disk, ideal, tm, phase, pend>>
 
-Next == (\E k \in Kinds : Block(k)) \/ WriteOne \/ Crash \/ Recover \/ Restart
+\* State sync (C29): the producing node's snapshot of the last committed height = the tree version of that height plus the
+\* application records listed in SnapItems, read from its disk; a blank node writes them to its own disk and loads its
+\* caches from there.  The restored node replaces the producer; the ideal node keeps executing every block.
+BlankDisk == [tree |-> (0 :> <<>>), hash |-> <<>>, height |-> 0, emission |-> 0, price |-> 0, versions |-> 0, vals |-> 0, times |-> <<>>, snap |-> 0]
+Item(f) == IF f \in SnapItems THEN disk[f] ELSE BlankDisk[f]
+Restored == [tree |-> (disk.height :> disk.tree[disk.height]) @@ BlankDisk.tree,
+             hash |-> Item("hash"), height |-> Item("height"), emission |-> Item("emission"), price |-> Item("price"),
+             versions |-> Item("versions"), vals |-> Item("vals"), times |-> Item("times"),
+             snap |-> 0]                              \* the restored node holds no snapshot of its own until it commits a block
+Sync ==
+   /\ "sync" \in Faults
+   /\ tm.height > 0
+   /\ phase = "idle" /\ mem.alive /\ faults < MaxFaults
+   /\ disk.snap = disk.height                       \* the producer has a snapshot of its last committed height
+   /\ disk' = Restored
+   /\ mem' = Load(Restored)
+   /\ faults' = faults + 1
+   /\ scn' = Append(scn, [op |-> "statesync"])
+   /\ UNCHANGED <<ideal, tm, phase, pend>>
+
+Next == (\E k \in Kinds : Block(k)) \/ WriteOne \/ Crash \/ Recover \/ Restart \/ Sync
 Spec == Init /\ [][Next]_dvars
 
 \* ---------------------------------------------------------------- properties
